@@ -279,10 +279,12 @@ def check_C06(tier):
     t0 = time.time()
     cases = L.family_cases(tier, L.TIERS_OBS[tier])
     cases += L.nest_cases(tier, len(cases) + 1)
-    obs_path = L.observe(cases, "tok", "obs-" + tier)
+    obs_path = L.observe(cases, "tok,rules", "obs-" + tier)
     obs = L.read_ndjson(obs_path)
     by_id = {o["id"]: o for o in obs}
     v = C.Verdict("C06")
+    if not C.rule_hook_present():
+        raise C.ToolError("the tree under test has no rule checker hook (src/verif.rs: RuleVisit)")
 
     def describe(r, o):
         x = r.get("x", {})
@@ -290,18 +292,42 @@ def check_C06(tier):
     stats, n1 = run_obs("C06", "C06", obs_path, by_id, v, describe)
     # growth: the nom parser's token tree equals the TLA+ reader's, spans included
     stats2, n2 = run_obs("C06", "TOK", obs_path, by_id, v, lambda r, o: "%r: the parser's token tree differs from the documented reading" % L.expr_of(o))
+    # the rule checker as a machine (RuleImpl.tla): the recorded visits of the real rule::branch are validated against
+    # it; a branch checked against a context that is not its own contradicts C06 whatever the verdict
+    out3, stats3 = C.tlc("RuleTrace.tla", "RuleTrace.cfg", env={"OBS": obs_path}, timeout=3000, java_opts=["-Xmx12g"])
+    if not stats3["ok"]:
+        C.log(stats3.get("tail", ""))
+        raise C.ToolError("TLC did not complete on RuleTrace")
+    n3 = 0
+    impl_notes = collections.Counter()
+    for r in C.tlc_records(out3):
+        o = by_id[r["id"]]
+        if r["t"] == "SPEC":
+            raise C.ToolError("RuleImpl.tla is inconsistent with the rest of the specification: %s on %r" % (r["what"], L.expr_of(o)))
+        if r["t"] == "IMPL":
+            if not impl_notes[r["what"]]:
+                C.log("NOTE: the rule checker no longer follows the pinned algorithm (RuleImpl.tla): %s on %r (further ones are counted in the evidence)" % (r["what"], L.expr_of(o)))
+            impl_notes[r["what"]] += 1
+        if r["t"] == "DISAGREE":
+            n3 += 1
+            v.disagree(r, "%r: %s: the rule checker visited the branch at bytes %s with context left %s / right %s, its own neighbours are %s / %s" % (
+                L.expr_of(o), r["what"], r["got"]["s"], r["got"]["l"], r["got"]["r"], r["expected"]["l"], r["expected"]["r"]))
+    visits = sum(len(o.get("rtrace", [])) for o in obs)
     built = [o for o in obs if o["outcome"] == "ok"]
     rejected = [o for o in obs if o["outcome"] in ("parse", "rule")]
     samples = [{"expression": L.expr_of(o), "outcome": o["outcome"], "rule": o["ekind"]} for o in sample_cases(obs, 6, lambda o: o["outcome"] in ("rule", "ok") and len(o["e"]) > 4)]
     rc = v.finish()
     C.write_evidence("C06", tier, "model_checking", {
-        "states": stats["distinct"] + stats2["distinct"], "transitions": stats["generated"] + stats2["generated"],
-        "traces_validated_against_impl": len(obs) + len(built),
+        "states": stats["distinct"] + stats2["distinct"] + stats3["distinct"], "transitions": stats["generated"] + stats2["generated"] + stats3["generated"],
+        "traces_validated_against_impl": len(obs) + len(built) + sum(1 for o in obs if o.get("rtrace")),
+        "rule_checker_machine": {"recorded_visits": visits, "records_with_visits": sum(1 for o in obs if o.get("rtrace")),
+                                 "states": stats3["distinct"], "own_context_disagreements": n3, "pinned_algorithm_notes": dict(impl_notes),
+                                 "what": "RuleTrace.tla: every recorded visit of rule::branch checks a branch token against its own neighbours (C06); the recording is a behaviour of the first-in first-out machine of RuleImpl.tla; the machine visits every branch once with its own context and its verdict is the documented one up to KF23 / KF24 (checked on every case)"},
         "samples": samples,
         "evaluations": len(obs), "distinct_nontrivial": len({tuple(o["e"]) for o in obs if any(c in o["e"] for c in (123, 60))}),
         "rule": "cases = all balanced lexeme sequences of the families %s (every arrangement of branches up to that size) plus %s the two-level nested branch contexts of spec/GenNest.tla (every combination of left/right neighbours at both levels, alternations and repetitions at both levels, bodies beginning / ending with boundaries and wildcards); non-trivial = contains an alternation or a repetition" % (L.TIERS_OBS[tier], "a seeded 8% sample of" if tier == "quick" else "all of"),
         "built": len(built), "rejected": len(rejected),
-        "disagreements": n1 + n2, "known_findings_hit": sorted(v.findings),
+        "disagreements": n1 + n2 + n3, "known_findings_hit": sorted(v.findings),
         "spec_self_consistency": "GlobRules!RulesAgree (semantic = context-free definition) and NeverSometimesRooted held on every case",
         "unspecified_clauses": ["U1: a repetition body that begins and ends with a boundary but repeats at most once", "a flag inside a tree wildcard or at the very end of a sub-expression (out of the property's domain)", "bounds of more than three digits (size rule not modelled)"],
         "exhaustive": True,
